@@ -23,9 +23,14 @@ Model/WOps.lean = the meaning of the Wuffs operators):
   while / do-while(0) / break / continue / goto + labels / return) over a C
   statement semantics with goto, for all programs.
 
-NOT proved (`lowering_whole_program_partial`): the composition of expression
-and statement lowering over a C memory model, struct layout, the function
-prologue, calls — covered by the differential execution of harness/cmd/c04.
+* Props/C04Body.lean: `body_lowering_correct` — expression and statement
+  lowering composed over a memory of typed scalar variables;
+  Props/C04Signed.lean: nodes with signed operand types; Props/C04Coro.lean:
+  the resume switch of a coroutine and the scratch word of the multi-byte reads.
+
+NOT proved (`lowering_whole_program_partial` in Props/C04Body.lean lists it):
+arrays, struct layout, the function prologue, calls, slices — covered by the
+differential execution of harness/cmd/c04.
 -/
 import WuffsVerif.Props.C04Ops
 
@@ -221,16 +226,12 @@ example : ceval (env1 ⟨.u16, 0x1234⟩) (.cast .u8 (.hole 0)) = some ⟨.u8, 0
 -- `jump_lowering_continue`, over a C semantics with structured statements, `goto` and labels
 -- (Model/CStmt.lean), for all programs, states and iteration counts.
 
-/-- What is still NOT proved about whole programs: the atomic statements are
-opaque in `stmt_lowering_correct` (their stored values are the subject of
-`compound_assign_correct_*` and `lower_correct`, but the composition "every
-assignment of a body computes the same store update" is not assembled into a
-single statement over a C memory model); struct layout (private_impl / private_data),
-the function prologue (receiver / magic / argument checks, zero-initialised
-locals) and calls are covered by the differential execution of
-harness/cmd/c04 only.  This `_partial` records two facts about assignments that
-the execution relies on. -/
-theorem lowering_whole_program_partial :
+-- The composition of the expression theorems with `stmt_lowering_correct` over a memory of
+-- typed scalar variables is Props/C04Body.lean `body_lowering_correct`; the property's
+-- `lowering_whole_program_partial` (with the list of what is still missing) is stated there.
+
+/-- two facts about the C form of op-assigns that the execution relies on -/
+theorem lowerAssign_shapes :
     (∀ t : WTy, lowerAssign .add t false = some (.compound .add (.hole 1))) ∧
     (∀ t : WTy, lowerAssign .satAdd t false = some (.satIndirect true t (.hole 1))) := by
   constructor <;> intro t <;> cases t <;> rfl
